@@ -54,6 +54,18 @@ type schedTask struct {
 	inOp   bool
 }
 
+// stuckAfter is how long (real time) the scheduler waits for the running task to reach its next step before it
+// concludes that the task is waiting for an in-process lock.
+var stuckAfter = 400 * time.Millisecond
+
+func init() {
+	if v := os.Getenv("VERIF_STUCK_AFTER_US"); v != "" {
+		if n, err := strconv.Atoi(v); err == nil {
+			stuckAfter = time.Duration(n) * time.Microsecond
+		}
+	}
+}
+
 func NewSched(seed uint64) *Sched {
 	return &Sched{Seed: seed, tasks: map[int64]*schedTask{}, wake: make(chan struct{}, 1), Stats: map[string]int64{}}
 }
@@ -178,7 +190,7 @@ func (s *Sched) Run() bool {
 	for {
 		select {
 		case <-s.wake:
-		case <-time.After(150 * time.Millisecond):
+		case <-time.After(stuckAfter):
 			// nobody parked or finished for a long (real) while: whoever is running is waiting for an in-process lock
 			s.mu.Lock()
 			for _, t := range s.order {
@@ -231,8 +243,10 @@ func (s *Sched) Run() bool {
 			}
 			if len(elig) == 0 {
 				s.mu.Unlock()
-				if stuck > 0 && stuck < live {
-					break // (cannot happen: somebody must be eligible if a lock holder is parked; wait for the watchdog)
+				if stuck > 0 {
+					// a task set aside as "waiting for an in-process lock" may simply have been slow (a loaded machine): it
+					// is still running, so nothing can be concluded before it shows up at a step or finishes
+					break
 				}
 				return false
 			}
